@@ -382,6 +382,54 @@ class Ctx:
             return
         self.broken.append({"name": name, "detail": detail[:4000]})
 
+    # -- corpus of reported defects ------------------------------------------
+    def run_corpus(self):
+        """Runs first (the corpus of minimised failures): the reproducers of the defects reported against this property,
+        kept under hunt/<id>/ and listed in hunt/index.json with their disposition.  Each is a small program that exits
+        non-zero while the behaviour it describes is present in the tree.  A reproducer of a repaired defect is a
+        guard: it must pass; one of an open finding is matched against known_findings.json by its tag."""
+        import shutil
+        import tempfile
+        from concurrent.futures import ThreadPoolExecutor
+        hunt = os.path.join(VERIF, "hunt")
+        try:
+            with open(os.path.join(hunt, "index.json")) as f:
+                index = json.load(f)["reproducers"]
+        except OSError:
+            return
+        mine = sorted((k, v) for k, v in index.items() if k.split("/")[0] == self.prop.lower() and v["disp"] in ("fixed", "known"))
+        if not mine:
+            return
+        scratch = tempfile.mkdtemp(prefix="verif_corpus_")
+
+        def one(kv):
+            key, ent = kv
+            path = os.path.join(hunt, key + ".py")
+            env = dict(os.environ, PYTHONPATH=REPO + os.pathsep + os.path.dirname(path), PYTHONHASHSEED="0",
+                       PYTHONDONTWRITEBYTECODE="1", TMPDIR=scratch, MAKO_TREE=REPO)
+            try:
+                p = subprocess.run([PY, path], cwd=scratch, env=env, capture_output=True, text=True, timeout=180)
+                return key, ent, p.returncode, (p.stdout + p.stderr)
+            except subprocess.TimeoutExpired:
+                return key, ent, -9, "timed out after 180s"
+        try:
+            with ThreadPoolExecutor(8) as ex:
+                results = list(ex.map(one, mine))
+        finally:
+            shutil.rmtree(scratch, ignore_errors=True)
+        counts = {"guards_of_repaired_defects": 0, "open_findings": 0, "failing": 0}
+        for key, ent, rc, out in results:
+            self.seen(("corpus", key))
+            counts["guards_of_repaired_defects" if ent["disp"] == "fixed" else "open_findings"] += 1
+            if rc != 0:
+                counts["failing"] += 1
+                tag = "hunt." + key.replace("/", ".")
+                self.violation({"reproducer": "hunt/%s.py" % key, "run_as": "PYTHONPATH=%s %s hunt/%s.py" % (REPO, PY, key), "exit": rc,
+                                "output": out.strip().splitlines()[-12:], "disposition": ent["disp"], "ref": ent.get("ref")},
+                               ent.get("what", "the reproducer of a reported defect fails"), tags=[tag])
+        self.dist["corpus_of_reported_defects"] = counts
+        self.generators["corpus"] = {"reproducers": len(mine), "source": "hunt/index.json"}
+
     # -- coq -------------------------------------------------------------
     def prove(self, gens=()):
         """Regenerate Gen files, build Properties/<id>.vo, collect assumptions."""
